@@ -1599,7 +1599,7 @@ fn classify_hang(log: &[Rec], timeout: Duration) -> (Option<&'static str>, Strin
         let cur = &log[start..];
         let sent = cur.iter().filter(|r| r.thread == ptid && r.point == "bp_after_send").count();
         let reached = cur.iter().filter(|r| r.thread == ptid && r.point == "bp_before_send").count();
-        let received = cur.iter().filter(|r| r.point == "c_recv" && r.info.starts_with("bp:")).count();
+        let received = cur.iter().filter(|r| r.point == "c_recv" && split_info(&r.info).0.starts_with("bp:")).count();
         let unparks = {
             // cont calls that answered a received breakpoint and returned Ok, as the controller saw them at the
             // API boundary (not the unpark point inside cont: a cont that returns Ok without waking the parser
@@ -1609,7 +1609,7 @@ fn classify_hang(log: &[Rec], timeout: Duration) -> (Option<&'static str>, Strin
             for r in cur {
                 match r.point {
                     "c_cont_call" => real = split_info(&r.info).0 == "stopped",
-                    "c_cont_ret" if real && r.info == "ok" => {
+                    "c_cont_ret" if real && split_info(&r.info).0 == "ok" => {
                         n += 1;
                         real = false;
                     }
